@@ -132,21 +132,38 @@ def numeric_addr(host):
 
 
 def stub_getaddrinfo(host, port, *a, **kw):
-    """Numeric literals go to libc; names to the zone; else NXDOMAIN."""
+    """Numeric literals go to libc *with the caller's family / type
+    arguments* (an IPv6 literal asked for as AF_INET fails there exactly as
+    it does in production); names go to the zone, filtered by the requested
+    family; else NXDOMAIN."""
     if host is None:
         raise socket.gaierror(-2, 'no host')
+    family = a[0] if len(a) > 0 else kw.get('family', 0)
+    stype = a[1] if len(a) > 1 else kw.get('type', 0)
     nums = numeric_addr(host)
     if nums is not None:
-        return [(socket.AF_INET6 if ':' in x else socket.AF_INET,
-                 socket.SOCK_STREAM, 6, '', (x, port or 0)) for x in nums]
+        infos = _REAL_GAI(host, port, family or 0, stype or 0, 0,
+                          socket.AI_NUMERICHOST)
+        out = []
+        seen = set()
+        for i in infos:
+            if i[4][0] in seen:
+                continue
+            seen.add(i[4][0])
+            out.append((i[0], socket.SOCK_STREAM, 6, '', (i[4][0], port or 0)))
+        return out
     try:
         key = host.encode('idna').decode().lower().rstrip('.')
     except UnicodeError:
         raise
     if key in ZONE:
+        recs = [x for x in ZONE[key]
+                if not family
+                or (family == socket.AF_INET6) == (':' in x)]
+        if not recs:
+            raise socket.gaierror(-5, 'No address associated with hostname')
         return [(socket.AF_INET6 if ':' in x else socket.AF_INET,
-                 socket.SOCK_STREAM, 6, '', (x, port or 0))
-                for x in ZONE[key]]
+                 socket.SOCK_STREAM, 6, '', (x, port or 0)) for x in recs]
     raise socket.gaierror(-2, 'Name or service not known')
 
 
